@@ -154,7 +154,26 @@ class D(Driver):
         vx = rng.choice((0.0, round(rng.uniform(-60, 0), 1), round(rng.uniform(0, 50), 1), float(rng.randint(-40, 40))))
         vy = rng.choice((0.0, round(rng.uniform(-60, 0), 1), round(rng.uniform(0, 50), 1), float(rng.randint(-40, 40))))
         vw, vh = round(rng.uniform(30, 110), 1), round(rng.uniform(30, 110), 1)
-        vb = f"{gd.fnum(vx)} {gd.fnum(vy)} {gd.fnum(vw)} {gd.fnum(vh)}"
+        if rng.random() < 0.25:
+            # origins inside (-1, 1), spelled the ways the number grammar allows (".5", "-.25", "5e-1", "+0.5")
+            vx, vy = rng.choice((0.5, -0.5, 0.25, -0.75)), rng.choice((0.5, -0.25, 0.75, -0.5))
+
+            def sp(v):
+                k = rng.random()
+                t = repr(v)
+                if k < 0.5:
+                    return t.replace("0.", ".", 1)
+                if k < 0.7:
+                    return gp.fmt_num(v, rng, "exp")
+                if k < 0.85 and v > 0:
+                    return "+" + t
+                return t
+
+            vb = f"{sp(vx)}{rng.choice((' ', ',', ', ', '  '))}{sp(vy)} {gd.fnum(vw)} {gd.fnum(vh)}"
+            f_lex = True
+        else:
+            vb = f"{gd.fnum(vx)} {gd.fnum(vy)} {gd.fnum(vw)} {gd.fnum(vh)}"
+            f_lex = False
         if k < 0.5:
             text, f, root = gd.paint_doc(rng, max_depth=2)
         elif k < 0.8:
@@ -191,6 +210,8 @@ class D(Driver):
             f["self_overlapping_straddler"] += 1
         text = text.replace("</svg>", "".join(extra) + "</svg>") if extra else text
         text = re.sub(r'viewBox="[^"]*"', f'viewBox="{vb}"', text, count=1)
+        if f_lex:
+            f["viewbox_lexical_forms"] += 1
         return text, f, (vx, vy, vw, vh)
 
     def _clip_case(self, rng, res):
